@@ -20,6 +20,7 @@ import (
 
 	chainapp "github.com/EscanBE/evermint/v12/app"
 	itutiltypes "github.com/EscanBE/evermint/v12/integration_test_util/types"
+	evmkeeper "github.com/EscanBE/evermint/v12/x/evm/keeper"
 	evmtypes "github.com/EscanBE/evermint/v12/x/evm/types"
 
 	"verifharness/hx"
@@ -44,6 +45,7 @@ type blockFixture struct {
 	maxGas    int64
 	nonces    map[int]uint64 // optimistic next nonce per wallet index
 	heavy     bool
+	seqAtBegin, cosmosAdmitted map[int]uint64
 }
 
 var (
@@ -65,7 +67,7 @@ var (
 
 func newBlockFixture(t *testing.T, maxGas int64) *blockFixture {
 	c := newChain(t)
-	f := &blockFixture{c: c, maxGas: maxGas, nonces: map[int]uint64{}}
+	f := &blockFixture{c: c, maxGas: maxGas, nonces: map[int]uint64{}, seqAtBegin: map[int]uint64{}, cosmosAdmitted: map[int]uint64{}}
 	f.logger = c.deployRuntime("logger", codeLogger)
 	f.reverter = c.deployRuntime("reverter", codeReverter)
 	f.storer = c.deployRuntime("storer", codeStorer)
@@ -122,6 +124,15 @@ type genTx struct {
 	sdIdx   int
 	ethTx   *ethtypes.Transaction
 	cosmos  bool
+	replay  bool
+	gb, rc  uint64 // refund hook: gas used before refund, refund counter
+}
+
+// records of the verif-tag refund hook, in execution order: {gasUsedBeforeRefund, counter, applied, remaining}
+var hookRecs [][4]uint64
+
+func init() {
+	evmkeeper.VerifRefundHook = func(a, b, c, d uint64) { hookRecs = append(hookRecs, [4]uint64{a, b, c, d}) }
 }
 
 // TestEngineBlock: random multi-tx blocks through the real FinalizeBlock; per tx the model
@@ -142,6 +153,8 @@ func runBlocks(t *testing.T, f *blockFixture, rng *hx.Rng, p *hx.Proto, nTx int)
 	c := f.c
 	ws := f.senders()
 	total := 0
+	blockOracle = p.Oracle
+	var replayPool [][]byte // bytes of transactions that were admitted in earlier blocks
 	for total < nTx {
 		ctx := c.ctx()
 		baseFee := c.s.ChainApp.FeeMarketKeeper().GetBaseFee(ctx).BigInt()
@@ -152,6 +165,8 @@ func runBlocks(t *testing.T, f *blockFixture, rng *hx.Rng, p *hx.Proto, nTx int)
 		for i, w := range ws {
 			fmt.Fprintf(&sb, " %d:%s:%d", i, c.balance(ctx, w.GetCosmosAddress()), c.seq(ctx, w.GetCosmosAddress()))
 			f.nonces[i] = c.seq(ctx, w.GetCosmosAddress())
+			f.seqAtBegin[i] = f.nonces[i]
+			f.cosmosAdmitted[i] = 0
 		}
 		p.Emit(sb.String(), "ok")
 		supplyBefore := c.s.ChainApp.BankKeeper().GetSupply(ctx, c.evmDenom).Amount.BigInt()
@@ -162,17 +177,114 @@ func runBlocks(t *testing.T, f *blockFixture, rng *hx.Rng, p *hx.Proto, nTx int)
 		var txs []genTx
 		for i := 0; i < n; i++ {
 			f.heavy = heavy && rng.Chance(2, 3)
+			if len(replayPool) > 0 && rng.Chance(1, 25) { // replay previously accepted bytes
+				txs = append(txs, genTx{bytes: replayPool[rng.Intn(len(replayPool))], kind: "replay", replay: true, toW: -1, sdIdx: -1})
+				continue
+			}
 			txs = append(txs, f.genTx(rng, baseFee, ws))
+			if rng.Chance(1, 30) { // the same bytes twice in one block
+				txs = append(txs, genTx{bytes: txs[len(txs)-1].bytes, kind: "replay-same-block", replay: true, toW: -1, sdIdx: -1})
+			}
 		}
 		raw := make([][]byte, len(txs))
 		for i, g := range txs {
 			raw[i] = g.bytes
 		}
+		hookRecs = hookRecs[:0]
 		res := c.finalize(raw)
+		hi := 0
+		// implementation-side oracles (running totals over the block)
+		admittedCnt, logTotal, cumTotal := int64(0), int64(0), uint64(0)
+		admittedBy := map[int]uint64{}
+		blockBloom := ethtypes.Bloom{}
 		for i, g := range txs {
 			o := c.observe(res.TxResults[i])
+			if g.replay {
+				p.Count("kind:" + g.kind)
+				if o.code == 0 || o.hasEthEv {
+					p.Oracle("replay", "previously accepted transaction bytes were admitted again (%s, code %d)", g.kind, o.code)
+				}
+				total++
+				continue
+			}
+			if !g.cosmos {
+				cl := obsClass(o)
+				if o.hasEthEv {
+					if o.anteTxIdx != admittedCnt {
+						p.Oracle("tx-index", "ethereum_tx txIndex=%d, expected %d (position %d)", o.anteTxIdx, admittedCnt, i)
+					}
+					admittedCnt++
+					admittedBy[g.sender]++
+					replayPool = append(replayPool, g.bytes)
+					if len(replayPool) > 64 {
+						replayPool = replayPool[1:]
+					}
+				}
+				if o.hasRcpt && o.receipt != nil {
+					if o.txIdx != o.anteTxIdx {
+						p.Oracle("tx-index", "receipt txIdx %d != ante txIndex %d", o.txIdx, o.anteTxIdx)
+					}
+					if nl := int64(len(o.receipt.Logs)); nl > 0 && o.logIdx != logTotal {
+						p.Oracle("log-index", "tx %d: first log index %d, expected %d (logs of earlier txs)", i, o.logIdx, logTotal)
+					}
+					logTotal += int64(len(o.receipt.Logs))
+					if o.receipt.CumulativeGasUsed != cumTotal+o.rGasUsed {
+						p.Oracle("cumulative-gas", "tx %d: cumulative %d, expected %d", i, o.receipt.CumulativeGasUsed, cumTotal+o.rGasUsed)
+					}
+					cumTotal += o.rGasUsed
+					if uint64(o.gasUsed) != o.rGasUsed {
+						p.Oracle("gas-result-receipt", "tx %d: consensus gas used %d != receipt gas used %d", i, o.gasUsed, o.rGasUsed)
+					}
+					if ig, _ := core.IntrinsicGas(g.ethTx.Data(), g.ethTx.AccessList(), g.ethTx.To() == nil, true, true); o.rGasUsed < ig || o.rGasUsed > g.ethTx.Gas() {
+						p.Oracle("gas-bounds", "tx %d: gas used %d outside [intrinsic %d, limit %d]", i, o.rGasUsed, ig, g.ethTx.Gas())
+					}
+					if (o.receipt.Status == 1) != (o.vmErr == "") {
+						p.Oracle("status", "tx %d: status %d but vm error %q", i, o.receipt.Status, o.vmErr)
+					}
+					for j := range blockBloom {
+						blockBloom[j] |= o.receipt.Bloom[j]
+					}
+				} else if o.hasEthEv { // admitted but not committed: the assume-failed receipt counts the full gas limit
+					cumTotal += g.ethTx.Gas()
+				}
+				sender := ws[g.sender].GetCosmosAddress().String()
+				dS, dC := big.NewInt(0), big.NewInt(0)
+				if v, ok := o.delta[sender]; ok {
+					dS = v
+				}
+				if v, ok := o.delta[c.feeCollector()]; ok {
+					dC = v
+				}
+				if new(big.Int).Sub(o.minted, o.burnt).Sign() > 0 {
+					p.Oracle("supply-created", "tx %d (%s, %s): minted %s > burnt %s", i, g.kind, cl, o.minted, o.burnt)
+				}
+				moved := big.NewInt(0)
+				if cl == "ok" && g.toW != g.sender {
+					moved = g.ethTx.Value()
+				}
+				if sum := new(big.Int).Add(new(big.Int).Add(dS, dC), moved); sum.Sign() != 0 {
+					p.Oracle("fee-leak", "tx %d (%s, %s): sender %s + collector %s + value %s != 0", i, g.kind, cl, dS, dC, moved)
+				}
+			}
+			// attach the refund-hook record of this tx's state transition (matched in order, checked by gas)
+			g.gb, g.rc = 0, 0
+			if cl := obsClass(o); !g.cosmos && (cl == "ok" || cl == "vmerr" || cl == "blockoog") {
+				for hi < len(hookRecs) {
+					r := hookRecs[hi]
+					hi++
+					if int64(r[0]-r[2]) == o.gasUsed {
+						g.gb, g.rc = r[0], r[1]
+						break
+					}
+				}
+			}
 			if os.Getenv("VERIF_DEBUG") != "" && o.code != 0 {
 				fmt.Printf("DBG kind=%s code=%s/%d gw=%d gu=%d log=%.160s\n", g.kind, o.codespace, o.code, o.gasWanted, o.gasUsed, o.log)
+			}
+			if g.cosmos {
+				if v, ok := o.delta[c.feeCollector()]; ok && v.Sign() > 0 {
+					f.cosmosAdmitted[g.sender]++
+				}
 			}
 			op, obs := f.lines(g, o, ws)
 			p.Count("class:" + obsClass(o))
@@ -193,6 +305,27 @@ func runBlocks(t *testing.T, f *blockFixture, rng *hx.Rng, p *hx.Proto, nTx int)
 				if v, ok := attr(ev, evmtypes.AttributeKeyEthereumBloom); ok {
 					bloom = fmt.Sprint(len(v))
 				}
+			}
+		}
+		{
+			want := ""
+			if blockBloom.Big().Sign() != 0 {
+				want = fmt.Sprintf("%x", blockBloom.Bytes())
+			}
+			got, found := "", false
+			for _, ev := range res.Events {
+				if ev.Type == evmtypes.EventTypeBlockBloom {
+					got, _ = attr(ev, evmtypes.AttributeKeyEthereumBloom)
+					found = true
+				}
+			}
+			if !found || got != want {
+				p.Oracle("block-bloom", "block bloom event (found=%v) is not the union of the receipt blooms", found)
+			}
+		}
+		for i, w := range ws {
+			if want, got := f.seqAtBegin[i]+admittedBy[i]+f.cosmosAdmitted[i], c.seq(ctx2, w.GetCosmosAddress()); want != got {
+				p.Oracle("sequence", "wallet %d: sequence %d after the block, expected %d (+1 per admitted tx)", i, got, want)
 			}
 		}
 		_ = bloom
@@ -486,7 +619,11 @@ func (f *blockFixture) lines(g genTx, o txObs, ws []*itutiltypes.TestAccount) (s
 	if obsClass(o) == "panic" {
 		pan = 1
 	}
-	op := fmt.Sprintf("%s | x=%s eg=%d nl=%d pan=%d", g.opline, x, o.gasUsed, nl, pan)
+	mg := int64(0)
+	if obsClass(o) == "ante:evm/16" {
+		mg = o.gasUsed
+	}
+	op := fmt.Sprintf("%s | x=%s gb=%d rc=%d nl=%d pan=%d mg=%d", g.opline, x, g.gb, g.rc, nl, pan, mg)
 	dash := func(b bool, v any) string {
 		if !b {
 			return "-"
